@@ -92,7 +92,7 @@ func (c *Ctx) pos(p token.Pos) string {
 	if !p.IsValid() {
 		return ""
 	}
-	pp := c.Fset.Position(p)
+	pp := c.Fset.PositionFor(p, false) // unadjusted: //line directives of generated code are ignored
 	return fmt.Sprintf("%s:%d", c.rel(pp.Filename), pp.Line)
 }
 
